@@ -95,6 +95,7 @@ class StubServer(object):
 
     def reinit(self, **kw):
         self.kw = kw
+        self.period, self.schedule = float(abs(kw.get("period", 0.0))), kw.get("schedule")
 
 
 def fresh_builder(level):
@@ -250,11 +251,15 @@ def expect_verb(verb, reply, tokens):
             def num(key, f, default):
                 return canon_value(default if d[key] == "~" else f(pyval(d[key])))
             sched = unhx(d["schedule"])
+            keep = 0 if d["keep"] == "~" else max(0, int(pyval(d["keep"])))
+            cyc = 3600.0 if d["cycle"] == "~" else max(0.0, abs(pyval(d["cycle"])))
+            if keep > 0 and not cyc:
+                keep = 0          # Logger.__init__: cyclePeriod must be nonzero if keep > 0
             return {"name": unhx(d["name"]), "period": canon_value(float(abs(0.0 if d["period"] == "~" else abs(pyval(d["period"]))))),
                     "prefix": unhx(d["prefix"]), "schedule": sched,
                     "order": unhx(d["order"]) if sched != "slave" else "-",
                     "flush": num("flush", lambda v: max(1.0, abs(v)), 30.0),
-                    "keep": num("keep", lambda v: max(0, int(v)), 0),
+                    "keep": canon_value(keep),
                     "cycle": num("cycle", lambda v: max(0.0, abs(v)), 3600.0),
                     "size": num("size", lambda v: max(0, abs(v)), 1024), "reuse": d["reuse"] == "1"}
         if verb == "server":
@@ -283,7 +288,7 @@ def expect_verb(verb, reply, tokens):
             return {"name": unhx(d["name"]), "order": unhx(d["order"]) if sched != "slave" else "-",
                     "kw": sorted((k, canon_value(v) if not isinstance(v, tuple) else repr(v)) for k, v in kw.items())}
     except (ValueError, KeyError, OverflowError, TypeError) as ex:
-        return "ERR post-loop " + type(ex).__name__      # errors of the code after the option loop: not compared
+        return "ERR " + ERRS.get(type(ex).__name__, type(ex).__name__)   # raised by the code after the option loop
     return "?"
 
 
@@ -360,7 +365,7 @@ def gen_case(rng, verb=None):
                 "via": gen_indirect(r, node=True)}
         if bad:
             k = r.choice(list(pool))
-            pool[k] = r.choice([[], ["1j"], ["bogus"], ["to"], ["a..b"]])
+            pool[k] = r.choice([["1j"], ["bogus"], ["a..b"], ["-x"]])
     elif verb == "frame":
         head = ["frame", name]
         pool = {"in": [r.choice(NAMES)], "via": gen_indirect(r, node=True)}
@@ -372,7 +377,7 @@ def gen_case(rng, verb=None):
                 "qua": gen_source(r)}
         if bad:
             k = r.choice(list(pool))
-            pool[k] = r.choice([[], ["to"], ["x"], ["1", "2", "3"]])
+            pool[k] = r.choice([["x"], ["..", "y"], ["a..b"]]) if k != "at" else ["sometime"]
     elif verb == "aux":
         head = ["aux", name]
         pool = {"as": [r.choice(["mine"] + NAMES)], "via": gen_indirect(r, node=True)}
@@ -532,8 +537,5 @@ class CHECK(core.Check):
         for i in range(len(cl)):
             if len(cl) > 2:
                 yield dict(case, clauses=cl[:i] + cl[i + 1:])
-        for i, c in enumerate(cl):
-            for j in range(1, len(c)):
-                yield dict(case, clauses=cl[:i] + [c[:j] + c[j + 1:]] + cl[i + 1:])
         if case["tail"]:
             yield dict(case, tail=[])
